@@ -14,6 +14,24 @@
 //! file every class landed in ("exactly one file, once").
 //!
 //! Sets outside the statement's domain (see `exclusions`) are explored for "no panic" only.
+//!
+//! Clause table (statement / quantifier clause → where it is decided, over which space)
+//!
+//! | clause | decided in | space |
+//! |---|---|---|
+//! | single stream: write, read back, same classes / keys / targets / fields / methods / parameters / comments | `run_case` stream part: `judge_read("stream")` on `write_all`→`read_into`, and `judge_text("stream-text")` (reference reader on the same bytes) | every in-domain set of every universe |
+//! | one file per top-level class, as a stream (`write_one`, listed in observe_at) | `run_case` write_one part: for every top-level class `write_one(file name)` must succeed and `read_into` / the reference reader must give exactly that class's tree (`judge_read("write_one")`, `judge_text("write_one-text")`, exactly one top-level CLASS); names that are no top-level file: no panic | every in-domain set without a file-name collision, every top-level class of it |
+//! | one file per top-level class in a directory tree: write, read back, the same | directory part: `judge_read("dir")` on `enigma_dir::write`→`read`, `judge_read("dir-listing-order")` on the same files created in the opposite order, `judge_read("dir-overwrite")` after writing the comment-less set over the files of the set | every in-domain set; overwrite: every set with a comment |
+//! | provided nested targets follow the nesting | `exclusions` (EX_NEST, EX_NEST_OPEN, EX_ROOT_NESTED_TARGET): other sets no-panic only | all universes; listed sets are asserted to be in the domain |
+//! | constructors are treated as unnamed | `normalise` (`<init>`→`<init>` = unnamed), EX_CTOR | universe constructors, identity-names |
+//! | nesting in the text mirrors source-name nesting | `judge_text`: the reference reader derives each key from the textual parent and the CLASS line's indentation must equal the length of the chain of present outer classes | universes nest, nest-wide, transitions, same-simple-names, dollar-edges, listed chains up to depth 256 |
+//! | every class lands in exactly one file | directory part: each file states exactly one top-level class, `ref_set` duplicates (`class-stated-twice`), number of files = number of top-level classes; write_one part: the trees partition the set | as above |
+//! | output is deterministic | `stream:not-deterministic` (the same object written twice), replay | every in-domain set |
+//! | ... and sorted | identical bytes / files for every insertion order (`bytes-depend-on-insertion-order`, `files-depend-on-insertion-order`); no particular key demanded | 3 (quick) / 4 (thorough) insertion orders; sibling counts up to 40 in the listed wide sets |
+//! | quantifier: inner classes whose outer class is absent | universes orphans, orphans-simple-name-clash, nest (every gap), same-simple-names, dollar-edges | |
+//! | quantifier: classes without target name | every universe has `None` rows; identity-names adds target = source (must stay distinct from "no target") | |
+//! | quantifier: parameters with comments; comments with blank lines, leading spaces, # | COMMENTS alphabet in every slot (members/*), inner-members, transitions (every pop of the indentation stack) | |
+//! | quantifier: packages at any depth | universes packages (0..3), deep-packages (8 and 10, a class named like a package directory), same-simple-names | |
 
 use std::collections::{BTreeMap, BTreeSet};
 use std::path::{Path, PathBuf};
@@ -28,7 +46,16 @@ const NS: [&str; 2] = ["official", "named"];
 
 /// Comments that the format can express: text lines separated by `\n`, made of anything but the
 /// tokeniser's other white space. (`""` is one empty comment line.)
-const COMMENTS: &[&str] = &["x", "a b", " lead", "trail ", "a  b", "#x", "x # y", "l1\nl2", "l1\n\nl3", "", "b\\s", "\\n", "l1\n"];
+const COMMENTS: &[&str] = &[
+	"x", "a b", " lead", "trail ", "a  b", "#x", "x # y", "l1\nl2", "l1\n\nl3", "", "b\\s", "\\n", "l1\n",
+	// a line of one space; three empty lines; an empty first line; a lone #
+	" ", "\n\n", "\nx", "#",
+	// lines that look like entries of the format
+	"COMMENT c\nCLASS A B\nARG 0 x",
+	// text outside ASCII: letters, NO-BREAK SPACE, EM SPACE in front, LINE SEPARATOR and NEXT LINE inside and at the
+	// end (white space for Unicode, plain text for the format, whose only separators are SP HT LF VT FF CR), non-BMP
+	"\u{e9}\u{a0}\u{fc}", "\u{2003}x\u{2028}y\u{85}", "\u{1f600}",
+];
 
 /// Comments outside the format (explored for "no panic" only).
 const ODD_COMMENTS: &[&str] = &["a\tb", "\tx", "x\r", "a\u{b}b", "a\u{c}b"];
@@ -76,6 +103,42 @@ fn tree_root<'a>(set: &MSet, k: &'a str) -> &'a str {
 
 fn is_orphan(set: &MSet, k: &str) -> bool {
 	split_inner(k).is_some() && present_parent(set, k).is_none()
+}
+
+/// names whose simple part has an empty piece between `$`s (`A$`, `$A`, `A$$B`): which `$` separates outer and
+/// inner class is not said by the statement, so the indentation of their CLASS lines is not judged
+/// (the round trip, the once-only and the determinism clauses are)
+fn ambiguous_nesting(k: &str) -> bool {
+	let simple = k.rsplit_once('/').map(|(_, s)| s).unwrap_or(k);
+	simple.contains('$') && simple.split('$').any(|p| p.is_empty())
+}
+
+/// the classes of the tree below (and including) the top-level class `root`
+fn subtree(set: &MSet, root: &str) -> MSet {
+	let mut s = MSet::new(&NS);
+	for (k, c) in &set.classes {
+		if tree_root(set, k) == root {
+			s.classes.insert(k.clone(), c.clone());
+		}
+	}
+	s
+}
+
+fn strip_docs(set: &MSet) -> MSet {
+	let mut s = set.clone();
+	for c in s.classes.values_mut() {
+		c.doc = None;
+		for f in c.fields.values_mut() {
+			f.doc = None;
+		}
+		for m in c.methods.values_mut() {
+			m.doc = None;
+			for p in m.params.values_mut() {
+				p.doc = None;
+			}
+		}
+	}
+	s
 }
 
 /// The target-side name a nested class's target has to extend: the class's own target name, or its
@@ -370,8 +433,47 @@ fn self_check() {
 // ---------------------------------------------------------------------------------------------
 // the real code
 
-fn build(set: &MSet, o: Order) -> Mappings<2, ()> {
-	mapmodel::to_quill_ordered::<2, ()>(set, o).unwrap_or_else(|e| vcore::machinery_fail(&format!("generator produced a set quill's public API refuses: {e:#}")))
+/// insertion order of the classes and insertion order below each class (fields, methods, parameters)
+#[derive(Clone, Copy, Debug, PartialEq, Eq)]
+struct Ins {
+	classes: Order,
+	members: Order,
+}
+
+impl Ins {
+	const SORTED: Ins = Ins { classes: Order::Sorted, members: Order::Sorted };
+	const fn both(o: Order) -> Ins {
+		Ins { classes: o, members: o }
+	}
+}
+
+fn build(set: &MSet, o: Ins) -> Mappings<2, ()> {
+	let fail = |e: anyhow::Error| -> ! { vcore::machinery_fail(&format!("generator produced a set quill's public API refuses: {e:#}")) };
+	if o.classes == o.members {
+		return mapmodel::to_quill_ordered::<2, ()>(set, o.classes).unwrap_or_else(|e| fail(e));
+	}
+	if let Err(e) = set.check() {
+		fail(e);
+	}
+	let mut q: Mappings<2, ()> = Mappings::from_namespaces(NS).unwrap_or_else(|e| fail(e));
+	let mut keys: Vec<&String> = set.classes.keys().collect();
+	match o.classes {
+		Order::Sorted => {},
+		Order::Reversed => keys.reverse(),
+		Order::Rotated(k) => {
+			if !keys.is_empty() {
+				let k = k % keys.len();
+				keys.rotate_left(k);
+			}
+		},
+	}
+	for k in keys {
+		let qc = mapmodel::class_to_quill::<2>(&set.classes[k], o.members).unwrap_or_else(|e| fail(e));
+		if q.classes.insert(mapmodel::cls(k).unwrap_or_else(|e| fail(e)), qc).is_some() {
+			vcore::machinery_fail("duplicate class");
+		}
+	}
+	q
 }
 
 enum ReadOut {
@@ -382,12 +484,23 @@ enum ReadOut {
 
 type Guarded<T> = Result<T, vcore::Panic>;
 
-fn real_write_stream(set: &MSet, o: Order) -> Guarded<Result<Vec<u8>, String>> {
+fn real_write_stream(set: &MSet, o: Ins) -> Guarded<Result<Vec<u8>, String>> {
 	let q = build(set, o);
 	vcore::guard(|| {
 		let mut v = Vec::new();
 		quill::enigma_file::write_all(&q, &mut v).map(|_| v).map_err(|e| format!("{e:#}"))
 	})
+}
+
+/// `write_one` for each of the names, on one object built in insertion order `o`
+fn real_write_ones(set: &MSet, o: Ins, names: &[&str]) -> Vec<Guarded<Result<Vec<u8>, String>>> {
+	let q = build(set, o);
+	names.iter().map(|name| {
+		vcore::guard(|| {
+			let mut v = Vec::new();
+			quill::enigma_file::write_one(&q, name, &mut v).map(|_| v).map_err(|e| format!("{e:#}"))
+		})
+	}).collect()
 }
 
 fn real_read_stream(text: &[u8]) -> Guarded<ReadOut> {
@@ -403,7 +516,7 @@ fn real_read_stream(text: &[u8]) -> Guarded<ReadOut> {
 	})
 }
 
-fn real_write_dir(set: &MSet, o: Order, dir: &Path) -> Guarded<Result<(), String>> {
+fn real_write_dir(set: &MSet, o: Ins, dir: &Path) -> Guarded<Result<(), String>> {
 	let q = build(set, o);
 	vcore::guard(|| quill::enigma_dir::write(&q, dir).map_err(|e| format!("{e:#}")))
 }
@@ -480,9 +593,37 @@ fn list_files(dir: &Path) -> BTreeMap<String, Vec<u8>> {
 // ---------------------------------------------------------------------------------------------
 // one case
 
+/// where the sets of a universe come from: the complete product over a small alphabet, or an explicit list of
+/// (large) sets that no product reaches
+enum Source {
+	Product(Space),
+	Listed(Vec<(String, MSet)>),
+}
+
 struct Uni {
 	label: String,
-	space: Space,
+	src: Source,
+}
+
+impl Uni {
+	fn len(&self) -> u64 {
+		match &self.src {
+			Source::Product(s) => s.len(),
+			Source::Listed(v) => v.len() as u64,
+		}
+	}
+	fn nth(&self, idx: u64) -> MSet {
+		match &self.src {
+			Source::Product(s) => s.nth(idx),
+			Source::Listed(v) => v[idx as usize].1.clone(),
+		}
+	}
+	fn describe(&self) -> Value {
+		match &self.src {
+			Source::Product(s) => json!(s.keys),
+			Source::Listed(v) => json!(v.iter().map(|(d, _)| d.clone()).collect::<Vec<_>>()),
+		}
+	}
 }
 
 struct Case<'a> {
@@ -593,7 +734,7 @@ impl Case<'_> {
 		}
 		ok &= self.judge(site, &seen, extra);
 		for e in entries {
-			if self.expected.classes.contains_key(&e.key) {
+			if self.expected.classes.contains_key(&e.key) && !ambiguous_nesting(&e.key) {
 				let want = tree_depth(&self.expected, &e.key);
 				if e.depth != want {
 					ok = false;
@@ -605,8 +746,10 @@ impl Case<'_> {
 	}
 }
 
-fn orders(tier: vcore::Tier) -> Vec<Order> {
-	tier.pick(vec![Order::Sorted, Order::Reversed, Order::Rotated(1)], vec![Order::Sorted, Order::Reversed, Order::Rotated(1), Order::Rotated(2)])
+fn orders(tier: vcore::Tier) -> Vec<Ins> {
+	let same = vec![Ins::SORTED, Ins::both(Order::Reversed), Ins::both(Order::Rotated(1))];
+	let mixed = vec![Ins::both(Order::Rotated(2)), Ins { classes: Order::Sorted, members: Order::Reversed }, Ins { classes: Order::Reversed, members: Order::Rotated(1) }];
+	tier.pick(same.clone(), same.into_iter().chain(mixed).collect())
 }
 
 fn file_name_of(set: &MSet, k: &str) -> String {
@@ -638,7 +781,7 @@ fn run_case(ctx: &Ctx, label: &str, idx: u64, set: &MSet, scratch: &Path, st: &m
 		}
 		let d = scratch.join("x");
 		fresh_dir(&d);
-		match real_write_dir(set, Order::Sorted, &d) {
+		match real_write_dir(set, Ins::SORTED, &d) {
 			Err(p) => case.panic("outside-domain directory write", &p),
 			Ok(Err(_)) => {},
 			Ok(Ok(())) => {
@@ -648,7 +791,15 @@ fn run_case(ctx: &Ctx, label: &str, idx: u64, set: &MSet, scratch: &Path, st: &m
 			},
 		}
 		let _ = std::fs::remove_dir_all(&d);
-		st.sample("outside", || json!({"kind": "outside-domain set (no panic only)", "universe": label, "index": idx, "why": ex.iter().collect::<Vec<_>>(), "set": tiny::print_with(set, &tiny::escape)}));
+		let names: BTreeSet<String> = set.classes.iter().flat_map(|(k, c)| [Some(k.clone()), c.names[1].clone()]).flatten().collect();
+		let names: Vec<&str> = names.iter().map(|s| s.as_str()).collect();
+		for r in real_write_ones(set, Ins::SORTED, &names) {
+			st.outcome("real calls");
+			if let Err(p) = r {
+				case.panic("outside-domain write_one", &p);
+			}
+		}
+		st.sample("outside",|| json!({"kind": "outside-domain set (no panic only)", "universe": label, "index": idx, "why": ex.iter().collect::<Vec<_>>(), "set": tiny::print_with(set, &tiny::escape)}));
 		return;
 	}
 
@@ -724,6 +875,42 @@ fn run_case(ctx: &Ctx, label: &str, idx: u64, set: &MSet, scratch: &Path, st: &m
 	if !case.colliding_roots.is_empty() {
 		st.outcome("sets with two top-level classes of equal file name");
 	}
+	if max_depth >= 8 {
+		st.outcome("sets with nesting depth >= 8");
+	}
+	if max_depth >= 256 {
+		st.outcome("sets with nesting depth >= 256");
+	}
+	if all_docs.iter().any(|d| !d.is_ascii()) {
+		st.outcome("sets with a comment with text outside ASCII");
+	}
+	if all_docs.iter().any(|d| d.split('\n').any(|l| l.starts_with("COMMENT") || l.starts_with("CLASS"))) {
+		st.outcome("sets with a comment line that looks like an entry");
+	}
+	if exp.classes.keys().any(|k| ambiguous_nesting(k)) {
+		st.outcome("sets with a class name with an empty piece between $s");
+	}
+	{
+		let same = |row: &Row| row[1].is_some() && row[0] == row[1];
+		if exp.classes.values().any(|c| same(&c.names) || c.fields.values().any(|f| same(&f.names)) || c.methods.values().any(|m| same(&m.names))) {
+			st.outcome("sets with an entry whose target name equals its source name");
+		}
+		let simple = |k: &str| k.rsplit_once('/').map(|(_, s)| s.to_owned()).unwrap_or_else(|| k.to_owned());
+		let mut seen = BTreeSet::new();
+		if exp.classes.keys().any(|k| !seen.insert(simple(k))) {
+			st.outcome("sets with classes of equal simple name in different packages");
+		}
+		if exp.classes.values().any(|c| c.methods.values().any(|m| m.params.keys().any(|i| *i >= 10))) {
+			st.outcome("sets with a parameter index >= 10");
+		}
+		let mut siblings: BTreeMap<String, u64> = BTreeMap::new();
+		for k in exp.classes.keys() {
+			*siblings.entry(present_parent(exp, k).unwrap_or("").to_owned()).or_default() += 1;
+		}
+		if siblings.values().any(|n| *n >= 32) {
+			st.outcome("sets with >= 32 classes below one parent");
+		}
+	}
 
 	// ---- single stream ----
 	let mut texts: Vec<Vec<u8>> = Vec::new();
@@ -771,9 +958,95 @@ fn run_case(ctx: &Ctx, label: &str, idx: u64, set: &MSet, scratch: &Path, st: &m
 		if !exp.classes.is_empty() {
 			st.distinct.add(&first[..]);
 		}
+		// deterministic: the same content in the same insertion order once more
+		st.outcome("real calls");
+		match real_write_stream(set, ords[0]) {
+			Ok(Ok(again)) if again == *first => st.outcome("stream: written twice, same bytes"),
+			Ok(Ok(again)) => {
+				stream_ok = false;
+				case.diff("stream:not-deterministic", "write_all writes different bytes for the same content in the same insertion order", &format!("{shown}\n---- write_all, second time ----\n{}", String::from_utf8_lossy(&again)));
+			},
+			Ok(Err(e)) => {
+				stream_ok = false;
+				case.diff("stream:not-deterministic", &format!("write_all refused the second time what it wrote the first time: {e}"), &shown);
+			},
+			Err(p) => {
+				stream_ok = false;
+				case.panic("stream write, second time", &p);
+			},
+		}
 	}
 	if stream_ok {
 		st.outcome("stream: round trip, text and order independence hold");
+	}
+
+	// ---- write_one: the file of one top-level class as a stream ----
+	let mut one_ok = case.colliding_roots.is_empty();
+	if case.colliding_roots.is_empty() {
+		let o = ords[1 % ords.len()];
+		let file_names: Vec<(&str, &str)> = roots.iter().map(|(f, ks)| (f.as_str(), ks[0].as_str())).collect();
+		let names: Vec<&str> = file_names.iter().map(|(f, _)| *f).collect();
+		for ((fname, root), r) in file_names.iter().zip(real_write_ones(set, o, &names)) {
+			st.outcome("real calls");
+			match r {
+				Err(p) => {
+					one_ok = false;
+					case.panic("write_one", &p);
+				},
+				Ok(Err(e)) => {
+					one_ok = false;
+					case.diff("write_one:refused", &format!("write_one refused the top-level class {root:?} under its file name {fname:?}: {e}"), "");
+				},
+				Ok(Ok(bytes)) => {
+					let sub = Case { ctx, label, idx, set, expected: subtree(exp, root), orphan_members: BTreeMap::new(), colliding_roots: BTreeSet::new(), orphan_name_clash: false };
+					let shown = format!("\n---- write_one({fname:?}) ----\n{}", String::from_utf8_lossy(&bytes));
+					st.outcome("real calls");
+					one_ok &= sub.judge_read("write_one", &real_read_stream(&bytes), &shown);
+					match std::str::from_utf8(&bytes).map_err(|e| e.to_string()).and_then(ref_read) {
+						Ok(entries) => {
+							let tops = entries.iter().filter(|e| e.depth == 0).count();
+							if tops != 1 {
+								one_ok = false;
+								case.diff("write_one-text:not-exactly-one-top-level-class", &format!("write_one({fname:?}) states {tops} top-level classes"), &shown);
+							}
+							one_ok &= sub.judge_text("write_one-text", &entries, &shown);
+						},
+						Err(e) => {
+							one_ok = false;
+							case.diff("write_one-text:not-enigma", &format!("the reference reader cannot read what write_one({fname:?}) wrote: {e}"), &shown);
+						},
+					}
+					st.outcome("write_one: trees written and read back");
+					if sub.expected.classes.len() >= 2 {
+						st.outcome("write_one: trees with nested classes");
+					}
+					if split_inner(root).is_some() {
+						st.outcome("write_one: trees whose top is an orphan inner class");
+					}
+				},
+			}
+		}
+		// names that are not the name of a file (nested classes): the statement says nothing, no panic
+		let others: BTreeSet<String> = exp.classes.iter()
+			.filter(|(k, _)| tree_root(exp, k) != k.as_str())
+			.flat_map(|(k, c)| [Some(k.clone()), c.names[1].clone()]).flatten()
+			.filter(|n| !roots.contains_key(n))
+			.collect();
+		let others: Vec<&str> = others.iter().map(|s| s.as_str()).collect();
+		for r in real_write_ones(set, o, &others) {
+			st.outcome("real calls");
+			match r {
+				Err(p) => {
+					one_ok = false;
+					case.panic("write_one on the name of a nested class", &p);
+				},
+				Ok(Err(_)) => st.outcome("write_one on the name of a nested class: refused (accepted)"),
+				Ok(Ok(_)) => st.outcome("write_one on the name of a nested class: wrote something (accepted)"),
+			}
+		}
+	}
+	if one_ok {
+		st.outcome("write_one: every top-level class gives exactly its tree");
 	}
 
 	// ---- directory ----
@@ -854,6 +1127,30 @@ fn run_case(ctx: &Ctx, label: &str, idx: u64, set: &MSet, scratch: &Path, st: &m
 		if readable {
 			dir_ok &= case.judge_text("dir-text", &entries, &shown);
 		}
+		// the same classes without their comments written over these files (same file names, every file
+		// shorter): what is read back is what was written last
+		if !all_docs.is_empty() && case.colliding_roots.is_empty() {
+			let bare = strip_docs(set);
+			let sub = Case { ctx, label, idx, set, expected: normalise(&bare), orphan_members: BTreeMap::new(), colliding_roots: BTreeSet::new(), orphan_name_clash: false };
+			st.outcome("real calls");
+			match real_write_dir(&bare, ords[0], &scratch.join("o0")) {
+				Err(p) => {
+					dir_ok = false;
+					case.panic("directory write over existing files", &p);
+				},
+				Ok(Err(e)) => {
+					dir_ok = false;
+					case.diff("dir-overwrite:write-refused", &format!("enigma_dir::write refused to write the same classes without comments over the files it wrote before: {e}"), &shown);
+				},
+				Ok(Ok(())) => {
+					st.outcome("real calls");
+					let after = list_files(&scratch.join("o0"));
+					let extra = format!("{shown}\n---- the same directory after writing the set without its comments over it ----\n{}", show(&after));
+					dir_ok &= sub.judge_read("dir-overwrite", &real_read_dir(&scratch.join("o0")), &extra);
+					st.outcome("directory cases written over with shorter files");
+				},
+			}
+		}
 		if first.len() >= 2 {
 			st.outcome("directory cases with >= 2 files");
 		}
@@ -862,6 +1159,16 @@ fn run_case(ctx: &Ctx, label: &str, idx: u64, set: &MSet, scratch: &Path, st: &m
 		}
 		if first.keys().any(|p| p.matches('/').count() >= 3) {
 			st.outcome("directory cases with a package directory of depth 3");
+		}
+		if first.keys().any(|p| p.matches('/').count() >= 8) {
+			st.outcome("directory cases with a package directory of depth >= 8");
+		}
+		{
+			// a file `x.mapping` next to a directory `x`
+			let dirs: BTreeSet<&str> = first.keys().filter_map(|p| p.rsplit_once('/').map(|(d, _)| d)).collect();
+			if first.keys().any(|p| p.strip_suffix(".mapping").is_some_and(|stem| dirs.contains(stem))) {
+				st.outcome("directory cases with a file named like a package directory next to it");
+			}
 		}
 		st.outcome_n("files written and read back", first.len() as u64);
 		if dir_ok && first.len() != n_roots {
@@ -875,9 +1182,9 @@ fn run_case(ctx: &Ctx, label: &str, idx: u64, set: &MSet, scratch: &Path, st: &m
 	if dir_ok {
 		st.outcome("directory: round trip, text, one file per top-level class and order independence hold");
 	}
-	if stream_ok && dir_ok {
-		let tag = if max_depth >= 2 { "deep" } else if n_orphans > 0 { "orphan" } else if param_docs > 0 { "param-doc" } else if n_roots >= 2 { "multi-file" } else { "plain" };
-		st.sample(tag, || json!({"kind": "mapping set that round-trips both ways", "universe": label, "index": idx, "classes": exp.classes.keys().collect::<Vec<_>>(), "write_all": texts.first().map(|t| String::from_utf8_lossy(t).to_string()), "files": listings.first().map(|l| l.keys().cloned().collect::<Vec<_>>())}));
+	if stream_ok && dir_ok && one_ok {
+		let tag = if max_depth >= 8 { "very-deep" } else if max_depth >= 2 { "deep" } else if n_orphans > 0 { "orphan" } else if param_docs > 0 { "param-doc" } else if n_roots >= 2 { "multi-file" } else { "plain" };
+		st.sample(tag, || json!({"kind": "mapping set that round-trips both ways", "universe": label, "index": idx, "classes": exp.classes.keys().take(12).collect::<Vec<_>>(), "number_of_classes": exp.classes.len(), "write_all": texts.first().map(|t| String::from_utf8_lossy(t).chars().take(1500).collect::<String>()), "files": listings.first().map(|l| l.keys().take(12).cloned().collect::<Vec<_>>())}));
 	}
 }
 
@@ -1007,6 +1314,69 @@ fn universes(tier: vcore::Tier) -> Vec<Uni> {
 		]),
 		class("A$B", &[None, Some("X$Y")], none, vec![], vec![method("<init>", "(LA;)V", &[None, Some("<init>")], none, vec![param(1, &[(None, Some("outer"))], none)])]),
 	]);
+	// target names equal to the source name (not the same as "no target name"), on every kind of entry that has one
+	add("identity-names", vec![
+		class("A", &[None, Some("A"), Some("X")], none, vec![field("f", "I", &[None, Some("f"), Some("g")], none)], vec![
+			method("m", "(I)V", &[None, Some("m"), Some("n")], none, vec![param(0, &[(None, Some("p"))], none)]),
+			method("<init>", "()V", &[None, Some("<init>")], none, vec![]),
+		]),
+		class("A$B", &[None, Some("A$B"), Some("X$B"), Some("X$Y")], none, vec![field("B", "LA$B;", &[None, Some("B")], none)], vec![]),
+		class("p/C", &[None, Some("p/C"), Some("C")], none, vec![], vec![]),
+	]);
+	// the same simple names in different packages, top-level and nested (anything keyed by less than the full
+	// name mixes them up); a target name that is another class's source name
+	add("same-simple-names", vec![
+		class("A", &[None, Some("X")], none, vec![], vec![]),
+		class("p/A", &[None, Some("q/A"), Some("p/X")], none, vec![], vec![]),
+		class("q/A", &[None, Some("p/B")], none, vec![], vec![]),
+		class("A$B", &[None, Some("X$Y"), Some("A$Y")], none, vec![], vec![]),
+		class("p/A$B", &[None, Some("q/A$Y"), Some("p/X$Y"), Some("p/A$Y")], none, vec![field("b", "I", &[Some("x")], none)], vec![]),
+		class("q/A$B", &[None, Some("p/B$B")], none, vec![field("c", "I", &[Some("x")], none)], vec![]),
+		class("q/A$B$C", &[None, Some("p/B$B$C"), Some("q/A$B$D")], none, vec![], vec![]),
+	]);
+	// `$` at the edges of a simple name and doubled, numeric (anonymous) inner names
+	add("dollar-edges", vec![
+		class("A", &[None, Some("X")], none, vec![], vec![]),
+		class("A$", &[None, Some("Y")], none, vec![], vec![]),
+		class("A$$B", &[None, Some("Y$C"), Some("A$$C")], small, vec![], vec![]),
+		class("$C", &[None, Some("Z")], none, vec![], vec![]),
+		class("A$1", &[None, Some("X$1"), Some("A$1"), Some("X$Named")], none, vec![], vec![]),
+		class("A$1$2", &[None, Some("X$1$2"), Some("A$1$2"), Some("X$Named$2")], none, vec![], vec![]),
+		class("p/$D$E", &[None, Some("p/$D$F")], none, vec![], vec![]),
+	]);
+	// packages of depth 8 and 10; classes named like a package directory that exists next to their file
+	add("deep-packages", vec![
+		class("a/b/c/d/e/f/g/h/K", &[None, Some("a/b/c/d/e/f/g/h/i/j/L"), Some("L")], none, vec![], vec![]),
+		class("a/b/c/d/e/f/g/h/K$I", &[None, Some("a/b/c/d/e/f/g/h/i/j/L$J"), Some("L$J"), Some("a/b/c/d/e/f/g/h/K$J")], small, vec![], vec![]),
+		class("a/b/c/d/e/f/g/h/M", &[None], none, vec![], vec![]),
+		class("p", &[None, Some("p/q")], none, vec![], vec![]),
+		class("p/q", &[None, Some("r")], none, vec![], vec![]),
+		class("p/q/A", &[None, Some("p/X"), Some("a/b")], none, vec![], vec![]),
+		class("a", &[None, Some("a/b/c")], none, vec![], vec![]),
+	]);
+	// parameter indices with one, two and three digits, the largest index a method can have
+	{
+		let p = |i: usize, n: &str, docs: &[Option<&str>]| param(i, &[(None, Some(n))], docs);
+		add("param-indices", vec![
+			class("A", &[Some("X")], none, vec![], vec![
+				method("m", "(IIIIIIIIIIII)V", &[None, Some("n")], none, vec![p(0, "a", none), p(1, "b", none), p(2, "c", none), p(9, "d", none), p(10, "e", small), p(11, "f", none), p(100, "g", none), p(255, "h", small)]),
+			]),
+		]);
+	}
+	// every way an entry can end: comments of parameters, methods, fields and classes at indentation 1..5 followed
+	// by a sibling, by an entry of an outer class, by a nested class of an outer class, by the next top-level class
+	{
+		let c1: &[Option<&str>] = &[None, Some("c")];
+		let f = || vec![field("f", "I", &[Some("g")], c1)];
+		let m = |docs: &[Option<&str>]| vec![method("m", "(I)V", &[Some("n")], docs, vec![param(0, &[(None, Some("p"))], c1)])];
+		add("transitions", vec![
+			ClassU { optional: false, ..class("A", &[Some("X")], none, f(), m(c1)) },
+			class("A$B", &[Some("X$Y")], c1, f(), m(c1)),
+			class("A$B$C", &[Some("X$Y$Z")], none, vec![], m(none)),
+			class("A$E", &[None], none, vec![], m(none)),
+			class("Z", &[None], none, vec![], vec![]),
+		]);
+	}
 	// what the format cannot state: explored for "no panic"
 	let odd: Vec<Option<&str>> = std::iter::once(None).chain(ODD_COMMENTS.iter().map(|c| Some(*c))).collect();
 	add("outside-domain", vec![
@@ -1018,13 +1388,44 @@ fn universes(tier: vcore::Tier) -> Vec<Uni> {
 		]),
 	]);
 
+	// second order: comments in the other slots as well / the whole alphabet in two slots at once
+	add("members-rich/param-comments", vec![member_class("p/A", &[None, Some("q/X")], &Slots { class: small, field: small, method: small, param: full }, true)]);
+	let mid: &[Option<&str>] = &[None, Some(" lead"), Some("l1\n\nl3"), Some("#x"), Some(""), Some("\nx"), Some("\u{2003}x\u{2028}y\u{85}")];
+	add("members/field+param-comments-small", vec![member_class("p/A", &[Some("q/X")], &Slots { class: none, field: mid, method: none, param: full }, true)]);
+	// two classes with members at once, one nested in the other, and a third file
+	add("two-member-classes-small", vec![
+		class("p/A", &[Some("q/X")], small, vec![field("f", "I", &[None, Some("g")], small)], vec![method("m", "(I)V", &[None, Some("n")], small, vec![param(0, &[(None, Some("p"))], small)])]),
+		class("p/A$B", &[None, Some("q/X$Y")], none, vec![field("f", "I", &[None, Some("g")], small)], vec![method("m", "(I)V", &[None, Some("n")], none, vec![param(0, &[(None, Some("p"))], small)])]),
+		class("C", &[None, Some("r/Z")], none, vec![], vec![]),
+	]);
+	// wider trees: two branches below one root, orphans in the middle
+	add("nest-wide", vec![
+		class("p/A", &[None, Some("q/X")], none, vec![], vec![]),
+		class("p/A$B", &[None, Some("q/X$Y"), Some("p/A$Y")], none, vec![], vec![]),
+		class("p/A$B$C", &[None, Some("q/X$Y$Z"), Some("p/A$Y$Z"), Some("p/A$B$Z")], small, vec![], vec![]),
+		class("p/A$B$D", &[None, Some("q/X$Y$V"), Some("p/A$B$V")], none, vec![], vec![]),
+		class("p/A$E", &[None, Some("q/X$F")], none, vec![], vec![]),
+		class("p/A$E$G", &[None, Some("q/X$F$H"), Some("p/A$E$H")], none, vec![], vec![]),
+		class("p/A$E$G$I", &[None, Some("q/X$F$H$J"), Some("p/A$E$G$J")], nl, vec![], vec![]),
+	]);
+
 	if tier == vcore::Tier::Thorough {
+		// the same with a second file next to the tree
+		add("nest-wide+file", vec![
+			class("p/A", &[None, Some("q/X")], none, vec![], vec![]),
+			class("p/A$B", &[None, Some("q/X$Y"), Some("p/A$Y")], none, vec![], vec![]),
+			class("p/A$B$C", &[None, Some("q/X$Y$Z"), Some("p/A$Y$Z"), Some("p/A$B$Z")], small, vec![], vec![]),
+			class("p/A$B$D", &[None, Some("q/X$Y$V"), Some("p/A$B$V")], none, vec![], vec![]),
+			class("p/A$E", &[None, Some("q/X$F")], none, vec![], vec![]),
+			class("p/A$E$G", &[None, Some("q/X$F$H"), Some("p/A$E$H")], none, vec![], vec![]),
+			class("p/A$E$G$I", &[None, Some("q/X$F$H$J"), Some("p/A$E$G$J")], nl, vec![], vec![]),
+			class("K", &[None, Some("q/L")], none, vec![], vec![]),
+		]);
 		let ml: &[Option<&str>] = &[None, Some(" lead"), Some("l1\n\nl3"), Some("#x")];
 		// the one-slot universes again with comments in the other slots as well
 		add("members-rich/class-comments", vec![member_class("p/A", &[None, Some("q/X")], &Slots { class: full, field: small, method: small, param: small }, true)]);
 		add("members-rich/field-comments", vec![member_class("p/A", &[None, Some("q/X")], &Slots { class: small, field: full, method: small, param: small }, true)]);
 		add("members-rich/method-comments", vec![member_class("p/A", &[None, Some("q/X")], &Slots { class: small, field: small, method: full, param: small }, true)]);
-		add("members-rich/param-comments", vec![member_class("p/A", &[None, Some("q/X")], &Slots { class: small, field: small, method: small, param: full }, true)]);
 		// two slots with the whole alphabet at once
 		add("members/field+param-comments", vec![member_class("p/A", &[Some("q/X")], &Slots { class: none, field: full, method: none, param: full }, true)]);
 		add("members/class+method-comments", vec![member_class("p/A", &[Some("q/X")], &Slots { class: full, field: none, method: full, param: none }, true)]);
@@ -1042,19 +1443,125 @@ fn universes(tier: vcore::Tier) -> Vec<Uni> {
 			class("p/A$B", &[None, Some("q/X$Y"), Some("p/A$Y")], nl, vec![field("f", "I", &[None, Some("g")], small)], vec![method("m", "(I)V", &[None, Some("n")], none, vec![param(0, &[(None, Some("p"))], ml)])]),
 			class("C", &[None, Some("r/Z")], none, vec![], vec![]),
 		]);
-		// wider trees: two branches below one root, orphans in the middle
-		add("nest-wide", vec![
-			class("p/A", &[None, Some("q/X")], none, vec![], vec![]),
-			class("p/A$B", &[None, Some("q/X$Y"), Some("p/A$Y")], none, vec![], vec![]),
-			class("p/A$B$C", &[None, Some("q/X$Y$Z"), Some("p/A$Y$Z"), Some("p/A$B$Z")], small, vec![], vec![]),
-			class("p/A$B$D", &[None, Some("q/X$Y$V"), Some("p/A$B$V")], none, vec![], vec![]),
-			class("p/A$E", &[None, Some("q/X$F")], none, vec![], vec![]),
-			class("p/A$E$G", &[None, Some("q/X$F$H"), Some("p/A$E$H")], none, vec![], vec![]),
-			class("p/A$E$G$I", &[None, Some("q/X$F$H$J"), Some("p/A$E$G$J")], nl, vec![], vec![]),
-			class("K", &[None, Some("q/L")], none, vec![], vec![]),
+		// the ends of entries again, with an optional top-level class and fields with comments further down
+		{
+			let c1: &[Option<&str>] = &[None, Some("c")];
+			let f = || vec![field("f", "I", &[Some("g")], c1)];
+			let m = |docs: &[Option<&str>]| vec![method("m", "(I)V", &[Some("n")], docs, vec![param(0, &[(None, Some("p"))], c1)])];
+			add("transitions-rich", vec![
+				class("A", &[Some("X")], c1, f(), m(c1)),
+				class("A$B", &[Some("X$Y")], c1, f(), m(c1)),
+				class("A$B$C", &[Some("X$Y$Z")], none, f(), m(none)),
+				class("A$E", &[None], none, vec![], m(none)),
+				class("Z", &[None], none, vec![], vec![]),
+			]);
+		}
+		// target names equal to source names, with comments
+		add("identity-names-rich", vec![
+			class("A", &[None, Some("A"), Some("X")], small, vec![field("f", "I", &[None, Some("f"), Some("g")], small)], vec![
+				method("m", "(I)V", &[None, Some("m"), Some("n")], none, vec![param(0, &[(None, Some("p"))], none)]),
+				method("<init>", "()V", &[None, Some("<init>")], none, vec![]),
+			]),
+			class("A$B", &[None, Some("A$B"), Some("X$B"), Some("X$Y")], small, vec![field("B", "LA$B;", &[None, Some("B")], none)], vec![]),
+			class("p/C", &[None, Some("p/C"), Some("C")], none, vec![], vec![]),
 		]);
 	}
-	out.into_iter().map(|(label, u)| Uni { label, space: Space::new(&u) }).collect()
+	let mut unis: Vec<Uni> = out.into_iter().map(|(label, u)| Uni { label, src: Source::Product(Space::new(&u)) }).collect();
+	// (the list differs between the tiers, so does the label: a replay file names universe and index)
+	unis.push(Uni { label: format!("chains-and-wide/{}", tier.name()), src: Source::Listed(listed_sets(tier)) });
+	unis
+}
+
+/// the reader's documented bound on the nesting of CLASS sections (quill/src/enigma_file.rs, MAX_NESTING_DEPTH):
+/// a class with this many outer classes is the deepest it reads; deeper ones are refused with an error
+const READER_NESTING_BOUND: usize = 256;
+
+/// One chain `d/A`, `d/A$a`, `d/A$a$b`, … with `depth` nested levels.
+/// `pattern` 0: no target names; 1: every class named, following the nesting; 2: only the top-level class named;
+/// 3: the upper half unnamed, the lower half named (following the unnamed source names above).
+/// With `members` the innermost class carries a comment, a field and a method with a parameter, all commented.
+fn chain_set(depth: usize, pattern: usize, members: bool) -> MSet {
+	let simple = ["a", "b", "c"];
+	let mut set = MSet::new(&NS);
+	let mut key = String::from("d/A");
+	let mut target: Option<String> = match pattern {
+		1 | 2 => Some("e/X".into()),
+		_ => None,
+	};
+	let first_named = depth / 2 + 1;
+	for level in 0..=depth {
+		if level > 0 {
+			let s = simple[level % 3];
+			let outer_key = key.clone();
+			key = format!("{key}${s}");
+			target = match pattern {
+				1 => target.map(|t| format!("{t}${}", s.to_uppercase())),
+				3 if level == first_named => Some(format!("{outer_key}$N")),
+				3 if level > first_named => target.map(|t| format!("{t}$N")),
+				_ => None,
+			};
+		}
+		let mut c = MClass { names: vec![Some(key.clone()), target.clone()], ..Default::default() };
+		if members && level == depth {
+			c.doc = Some("deep\n\n # c ".into());
+			c.fields.insert(("f".into(), "I".into()), MField { names: vec![Some("f".into()), Some("g".into())], doc: Some(" fc".into()) });
+			let mut m = MMethod { names: vec![Some("m".into()), None], doc: Some("mc\n".into()), params: BTreeMap::new() };
+			m.params.insert(0, MParam { names: vec![None, Some("p".into())], doc: Some("#pc".into()) });
+			c.methods.insert(("m".into(), "(I)V".into()), m);
+		}
+		set.classes.insert(key.clone(), c);
+	}
+	set
+}
+
+/// `tops` top-level classes in two packages and the default package, `inner` nested classes below the first of
+/// them; every second one named, the target names in the opposite order of the source names
+fn wide_set(tops: usize, inner: usize) -> MSet {
+	let mut set = MSet::new(&NS);
+	let mut put = |key: String, target: Option<String>| {
+		set.classes.insert(key.clone(), MClass { names: vec![Some(key), target], ..Default::default() });
+	};
+	for i in 0..tops {
+		let key = match i % 3 {
+			0 => format!("w/C{i}"),
+			1 => format!("v/C{i}"),
+			_ => format!("C{i}"),
+		};
+		let target = if i == 0 { Some("u/D".to_owned()) } else if i % 2 == 0 { Some(format!("u/D{}", tops - i)) } else { None };
+		put(key, target);
+	}
+	for j in 0..inner {
+		put(format!("w/C0$I{j}"), if j % 2 == 1 { Some(format!("u/D$J{}", inner - j)) } else { None });
+	}
+	set
+}
+
+fn listed_sets(tier: vcore::Tier) -> Vec<(String, MSet)> {
+	let mut out = Vec::new();
+	let depths: Vec<usize> = tier.pick(
+		vec![4, 5, 6, 7, 8, 9, 12, 16, 17, 32, 33, 64, 65, 128, 255, READER_NESTING_BOUND],
+		(4..=40).chain([63, 64, 65, 100, 127, 128, 129, 200, 254, 255, READER_NESTING_BOUND]).collect(),
+	);
+	for d in depths {
+		for pattern in 0..4 {
+			for members in [false, true] {
+				out.push((format!("chain depth={d} pattern={pattern} members={members}"), chain_set(d, pattern, members)));
+			}
+		}
+	}
+	for (tops, inner) in tier.pick(vec![(40, 33), (3, 40)], vec![(40, 33), (3, 40), (33, 0), (100, 70), (20, 21), (21, 20)]) {
+		out.push((format!("wide tops={tops} inner={inner}"), wide_set(tops, inner)));
+	}
+	for (d, set) in &out {
+		if let Err(e) = set.check() {
+			vcore::machinery_fail(&format!("listed set {d:?} is malformed: {e}"));
+		}
+		let ex = exclusions(set);
+		if !ex.is_empty() {
+			vcore::machinery_fail(&format!("listed set {d:?} is outside the statement's domain: {ex:?}"));
+		}
+	}
+	out
 }
 
 // ---------------------------------------------------------------------------------------------
@@ -1077,14 +1584,14 @@ fn main() {
 	let mut total = Stats::new();
 	let mut per_universe: Vec<Value> = Vec::new();
 	for u in &unis {
-		let n = u.space.len();
+		let n = u.len();
 		let st = (0..n).into_par_iter().fold(Stats::new, |mut st, idx| {
-			let set = u.space.nth(idx);
+			let set = u.nth(idx);
 			let scratch = thread_scratch(&base);
 			vcore::watched(|| format!("universe={}\nindex={}\n", u.label, idx), || run_case(ctx, &u.label, idx, &set, &scratch, &mut st));
 			st
 		}).reduce(Stats::new, Stats::merge);
-		per_universe.push(json!({"universe": u.label, "sets": n, "in_domain": st.get("in-domain"), "outside_domain": st.get("outside-domain"), "classes": u.space.keys}));
+		per_universe.push(json!({"universe": u.label, "sets": n, "in_domain": st.get("in-domain"), "outside_domain": st.get("outside-domain"), "classes": u.describe()}));
 		total = total.merge(st);
 	}
 	let _ = std::fs::remove_dir_all(&base);
@@ -1105,6 +1612,24 @@ fn main() {
 	ctx.floor("directory cases with a package directory", 100, total.get("directory cases with a package directory"));
 	ctx.floor("directory cases with a package directory of depth 3", 10, total.get("directory cases with a package directory of depth 3"));
 	ctx.floor("sets outside the domain explored for no panic", 100, total.get("outside-domain"));
+	ctx.floor("sets with nesting depth >= 8", 50, total.get("sets with nesting depth >= 8"));
+	ctx.floor("sets with nesting depth >= 256 (the reader's bound)", 8, total.get("sets with nesting depth >= 256"));
+	ctx.floor("sets with >= 32 classes below one parent", 2, total.get("sets with >= 32 classes below one parent"));
+	ctx.floor("sets with a comment with text outside ASCII", 500, total.get("sets with a comment with text outside ASCII"));
+	ctx.floor("sets with a comment line that looks like an entry", 100, total.get("sets with a comment line that looks like an entry"));
+	ctx.floor("sets with a class name with an empty piece between $s", 500, total.get("sets with a class name with an empty piece between $s"));
+	ctx.floor("sets with an entry whose target name equals its source name", 1_000, total.get("sets with an entry whose target name equals its source name"));
+	ctx.floor("sets with classes of equal simple name in different packages", 1_000, total.get("sets with classes of equal simple name in different packages"));
+	ctx.floor("sets with a parameter index >= 10", 500, total.get("sets with a parameter index >= 10"));
+	ctx.floor("directory cases with a package directory of depth >= 8", 500, total.get("directory cases with a package directory of depth >= 8"));
+	ctx.floor("directory cases with a file named like a package directory next to it", 500, total.get("directory cases with a file named like a package directory next to it"));
+	ctx.floor("directory cases written over with shorter files", 5_000, total.get("directory cases written over with shorter files"));
+	ctx.floor("stream cases written twice with the same bytes", 5_000, total.get("stream: written twice, same bytes"));
+	ctx.floor("write_one: trees written and read back", 10_000, total.get("write_one: trees written and read back"));
+	ctx.floor("write_one: trees with nested classes", 1_000, total.get("write_one: trees with nested classes"));
+	ctx.floor("write_one: trees whose top is an orphan inner class", 1_000, total.get("write_one: trees whose top is an orphan inner class"));
+	ctx.floor("write_one: calls with the name of a nested class (no panic)", 1_000, total.get("write_one on the name of a nested class: refused (accepted)") + total.get("write_one on the name of a nested class: wrote something (accepted)"));
+	ctx.floor("sets on which every write_one check held", 5_000, total.get("write_one: every top-level class gives exactly its tree"));
 	ctx.floor("sets on which every stream check held", 5_000, total.get("stream: round trip, text and order independence hold"));
 	ctx.floor("sets on which every directory check held", 5_000, total.get("directory: round trip, text, one file per top-level class and order independence hold"));
 
@@ -1112,7 +1637,7 @@ fn main() {
 		"evaluations": total.evaluations,
 		"real_calls": total.get("real calls"),
 		"distinct_nontrivial": total.distinct.len(),
-		"rule": "one evaluation = one mapping set of a universe (every universe enumerated completely), built as a real quill Mappings in each insertion order and run through write_all→read_into and enigma_dir::write→enigma_dir::read on tmpfs, compared with the set itself and with an independent reference reading of the written text; distinct_nontrivial = distinct write_all texts of non-empty sets of the domain; real_calls = calls of write_all / read_into / enigma_dir::write / enigma_dir::read",
+		"rule": "one evaluation = one mapping set of a universe (every universe enumerated completely), built as a real quill Mappings in each insertion order and run through write_all→read_into and enigma_dir::write→enigma_dir::read on tmpfs, compared with the set itself and with an independent reference reading of the written text; distinct_nontrivial = distinct write_all texts of non-empty sets of the domain; real_calls = calls of write_all / write_one / read_into / enigma_dir::write / enigma_dir::read; every product universe is enumerated completely, the universe chains-and-wide is an explicit list of large sets (every one run)",
 		"exhaustive": true,
 		"samples": total.samples,
 		"outcomes": total.outcomes,
@@ -1121,8 +1646,14 @@ fn main() {
 			"universes": per_universe,
 			"insertion_orders": orders(ctx.tier).iter().map(|o| format!("{o:?}")).collect::<Vec<_>>(),
 			"comment_alphabet": COMMENTS,
-			"nesting_depth_max": 3,
-			"package_depth": [0, 1, 2, 3],
+			"nesting_depth_max": {"product universes": 3, "listed chains": READER_NESTING_BOUND},
+			"nesting_depth_not_explored": format!("more than {READER_NESTING_BOUND} outer classes: the reader refuses such text with an error by design (MAX_NESTING_DEPTH); the boundary itself is explored"),
+			"package_depth": [0, 1, 2, 3, 8, 10],
+			"parameter_indices": [0, 1, 2, 9, 10, 11, 100, 255],
+			"siblings_below_one_parent_max": ctx.tier.pick(40, 100),
+			"write_one": "for every top-level class of every in-domain set without file-name collision: called with the class's file name (target name, source name when unnamed) on an object built in the second insertion order; the names of nested classes: no panic only",
+			"deterministic": "write_all is called twice on objects built in the same insertion order: same bytes",
+			"overwrite": "sets with a comment: the same classes without comments are written over the directory; reading gives the comment-less set (same file names, every file shorter)",
 			"outside_domain_no_panic_only": [EX_NEST, EX_NEST_OPEN, EX_ROOT_NESTED_TARGET, EX_CTOR, EX_PARAM_SRC, EX_PARAM_UNNAMED, EX_COMMENT_WS],
 			"outside_domain_comments": ODD_COMMENTS,
 			"constructors": "<init> named <init> is compared as <init> without name",
@@ -1131,11 +1662,12 @@ fn main() {
 		},
 	});
 	ctx.finish(coverage, &[
-		"names containing white space, '#' or '$' other than as the inner-class separator are outside the alphabet",
-		"the directory is fresh and exists before enigma_dir::write is called; stale files of earlier writes are not explored",
+		"names containing white space or '#' are outside the alphabet; '$' at the edges of a simple name and doubled is explored, with the indentation clause not judged for those names",
+		"the directory is fresh and exists before enigma_dir::write is called, or holds exactly the files of an earlier write of the same classes; stale files of other classes are not explored",
+		"classes nested below more than 256 outer classes are not explored (the reader's stated bound)",
 		"the file system is case sensitive (tmpfs); class names differing only in case are not generated",
 		"the reference reader in this file is the independent reading of the Enigma text (self-checked against a hand-written sample at start)",
-		"insertion orders explored per level: sorted, reversed, rotated (all levels use the same order)",
+		"insertion orders explored: sorted, reversed, rotated by one on every level (thorough: also rotated by two, and two mixtures where classes and members are inserted in different orders)",
 	]);
 }
 
@@ -1147,16 +1679,16 @@ fn replay(ctx: &'static Ctx, path: &Path, base: &Path) -> ! {
 	let label = get("universe=");
 	let idx: u64 = get("index=").parse().unwrap_or_else(|_| vcore::machinery_fail("bad index"));
 	let u = [vcore::Tier::Quick, vcore::Tier::Thorough].into_iter().flat_map(universes).find(|u| u.label == label).unwrap_or_else(|| vcore::machinery_fail("unknown universe"));
-	if idx >= u.space.len() {
+	if idx >= u.len() {
 		vcore::machinery_fail("index outside the universe");
 	}
-	let set = u.space.nth(idx);
+	let set = u.nth(idx);
 	let scratch = thread_scratch(base);
 	let mut st = Stats::new();
 	run_case(ctx, &u.label, idx, &set, &scratch, &mut st);
 	// determinism of the real code on this case: two more observations must agree byte for byte
-	let a = real_write_stream(&set, Order::Sorted);
-	let b = real_write_stream(&set, Order::Sorted);
+	let a = real_write_stream(&set, Ins::SORTED);
+	let b = real_write_stream(&set, Ins::SORTED);
 	if a != b {
 		vcore::machinery_fail("replay is not deterministic");
 	}
